@@ -310,6 +310,12 @@ def jobs_for(ck):
                     continue    # generated C sources include headers by their mirror-layout path
                 jobs.append((idx, spec, pl, odd, args))
                 idx += 1
+    # link chains deeper than the exhaustive bound: generated header two or three link levels away from its user
+    for ci, spec in enumerate(pg.chain_specs()):
+        for pl in (('root', 'allsub') if ck.thorough else (('root', 'allsub')[(ci + ck.seed) % 2],)):
+            for odd, args in ([(False, ()), (False, ('--unity=on',)), (False, ('--default-library=static',))] if ck.thorough else [(False, ())]):
+                jobs.append((idx, spec, pl, odd, args))
+                idx += 1
     return jobs
 
 
